@@ -30,6 +30,7 @@ func Minimise(c *Case, want *Violation, budget time.Duration) (*Case, *Outcome, 
 			return false
 		}
 		cand.Decisions = nil
+		cand.QuietTail = false
 		seeds := []uint64{cand.SchedSeed, cand.SchedSeed + 1, cand.SchedSeed*31 + 7}
 		for _, s := range seeds {
 			cc := cloneCase(cand)
@@ -138,5 +139,47 @@ func Minimise(c *Case, want *Violation, budget time.Duration) (*Case, *Outcome, 
 	cand := cloneCase(best)
 	cand.Policy = PolicySpec{Kind: "uniform", Sticky: 0.9}
 	try(cand)
+	// 6. schedule: the shortest prefix of the failing run's decision log after
+	// which a quiet tail (every further decision 0: first eligible task, first
+	// grantable case, no clock advance) still ends in the same violation.
+	// Bisection; the property is not monotone in the prefix length, so the
+	// result is a local minimum - every accepted candidate was executed.
+	if bestOut != nil && len(bestOut.Decisions) > 0 {
+		full := bestOut.Decisions
+		tryPrefix := func(k int) (*Case, *Outcome) {
+			if time.Now().After(deadline) {
+				return nil, nil
+			}
+			cc := cloneCase(best)
+			cc.Decisions = append([]uint32{}, full[:k]...)
+			cc.QuietTail = true
+			tries++
+			out, err := RunCase(cc)
+			if err != nil || !sameViolation(out.Violation, want) {
+				return nil, nil
+			}
+			return cc, out
+		}
+		var qc *Case
+		var qo *Outcome
+		lo, hi := 0, len(full)
+		if c0, o0 := tryPrefix(0); c0 != nil {
+			qc, qo, hi = c0, o0, 0
+		}
+		for lo < hi {
+			mid := (lo + hi) / 2
+			if c1, o1 := tryPrefix(mid); c1 != nil {
+				qc, qo, hi = c1, o1, mid
+			} else {
+				lo = mid + 1
+			}
+		}
+		if qc == nil && hi == len(full) {
+			qc, qo = tryPrefix(len(full))
+		}
+		if qc != nil {
+			best, bestOut = qc, qo
+		}
+	}
 	return best, bestOut, tries
 }
